@@ -50,3 +50,237 @@ package datas
 //@   loop 1
 //@     invariant len(refname) >= 0
 //@     decreases len(refname)
+
+// ---- ref updates (C20, C21): every conditional update is a compare-and-swap against the map it was handed
+
+//@ ghost_global verif_ghost
+
+//@ func verif_cur
+//@   pure
+//@   opaque
+//@ func verif_has
+//@   pure
+//@   opaque
+//@ func verif_valat
+//@   pure
+//@   opaque
+//@ func verif_rootof
+//@   pure
+//@   opaque
+//@ func verif_hashof
+//@   pure
+//@   opaque
+//@ func verif_target
+//@   pure
+//@   opaque
+
+//@ extern (github.com/dolthub/dolt/go/store/types.Ref).TargetHash as verif_x_Ref_TargetHash
+//@   modifies nothing
+//@   ensures h == verif_target(r)
+
+//@ extern (github.com/dolthub/dolt/go/store/prolly.AddressMap).Get as verif_x_am_Get
+//@   modifies nothing
+//@   ensures err == nil ==> addr == verif_cur(name)
+
+//@ extern (github.com/dolthub/dolt/go/store/prolly.AddressMap).Has as verif_x_am_Has
+//@   modifies nothing
+//@   ensures err == nil ==> ok == verif_has(name)
+
+//@ extern (github.com/dolthub/dolt/go/store/prolly.AddressMap).Editor as verif_x_am_Editor
+//@   modifies nothing
+
+//@ extern (github.com/dolthub/dolt/go/store/prolly.AddressMapEditor).Update as verif_x_ae_Update
+//@   modifies nothing
+//@   ghost_set verif_ghost.nUpd = verif_ghost.nUpd + 1
+//@   ghost_set verif_ghost.updFailed = verif_ghost.updFailed || err != nil
+
+//@ extern (github.com/dolthub/dolt/go/store/prolly.AddressMapEditor).Delete as verif_x_ae_Delete
+//@   modifies nothing
+//@   ghost_set verif_ghost.nUpd = verif_ghost.nUpd + 1
+//@   ghost_set verif_ghost.updFailed = verif_ghost.updFailed || err != nil
+
+// an editor is flushed only if every mutation applied to it succeeded
+//@ extern (github.com/dolthub/dolt/go/store/prolly.AddressMapEditor).Flush as verif_x_ae_Flush
+//@   modifies nothing
+//@   requires !verif_ghost.updFailed
+//@   ghost_set verif_ghost.flushed = (err == nil)
+
+//@ extern (github.com/dolthub/dolt/go/store/types.Value).Hash as verif_x_Value_Hash
+//@   modifies nothing
+//@   ensures err == nil ==> h == verif_hashof(v)
+
+//@ extern (*github.com/dolthub/dolt/go/store/types.ValueStore).ReadValue as verif_x_ReadValue
+//@   modifies nothing
+//@   ensures err == nil ==> v == verif_valat(h)
+
+//@ func GetCommitRootHash
+//@   property C20
+//@   trusted reads the root address out of a commit value (spec function verif_rootof)
+//@   modifies nothing
+//@   ensures result1 == nil ==> result0 == verif_rootof(cv)
+
+//@ extern (*github.com/dolthub/dolt/go/gen/fb/serial.WorkingSet).StagedRootAddrBytes as verif_x_ws_Staged
+//@   modifies nothing
+//@   ensures len(b) == 20
+//@   ghost_set verif_ghost.wsStaged = hash.New(b)
+
+//@ extern (*github.com/dolthub/dolt/go/gen/fb/serial.WorkingSet).WorkingRootAddrBytes as verif_x_ws_Working
+//@   modifies nothing
+//@   ensures len(b) == 20
+//@   ghost_set verif_ghost.wsWorking = hash.New(b)
+
+// doCommit: the head moves only if the map still holds the address the caller saw, to the new commit's address
+//@ func (*database).doCommit$1
+//@   property C20
+//@   requires !verif_ghost.flushed && !verif_ghost.updFailed
+//@   at call Update: assert verif_cur(datasetID) == datasetCurrentAddr
+//@   at call Update: assert arg2:string == datasetID && arg3:hash.Hash == verif_hashof(newCommitValue)
+//@   ensures  result1 == nil ==> verif_ghost.flushed && verif_ghost.nUpd == old(verif_ghost.nUpd)+1
+//@   ensures  result1 != nil ==> !verif_ghost.flushed
+//@   ensures  result1 == nil ==> verif_cur(datasetID) == datasetCurrentAddr
+//@   also_modifies verif_ghost.nUpd, verif_ghost.flushed, verif_ghost.updFailed
+
+// doUpdateWorkingSet: same compare-and-swap for a working set
+//@ func (*database).doUpdateWorkingSet$1
+//@   property C20
+//@   requires !verif_ghost.flushed && !verif_ghost.updFailed
+//@   at call Update: assert verif_cur(datasetID) == currHash
+//@   at call Update: assert arg2:string == datasetID && arg3:hash.Hash == addr
+//@   ensures  result1 == nil ==> verif_ghost.flushed && verif_ghost.nUpd == old(verif_ghost.nUpd)+1
+//@   ensures  result1 != nil ==> !verif_ghost.flushed
+//@   ensures  result1 == nil ==> verif_cur(datasetID) == currHash
+//@   also_modifies verif_ghost.nUpd, verif_ghost.flushed, verif_ghost.updFailed
+
+// CommitWithWorkingSet: head and working set are updated in ONE editor flush, guarded by BOTH compares (C21)
+//@ func (*database).CommitWithWorkingSet$1
+//@   property C21 C20
+//@   requires !verif_ghost.flushed && !verif_ghost.updFailed
+//@   at call Update: assert verif_cur(workingSetDS.ID()) == prevWsHash && verif_cur(commitDS.ID()) == currDSHash
+//@   at call Update#1: assert arg2:string == commitDS.ID() && arg3:hash.Hash == verif_target(commitValRef)
+//@   at call Update#2: assert arg2:string == workingSetDS.ID() && arg3:hash.Hash == wsAddr
+//@   ensures  result1 == nil ==> verif_ghost.flushed && verif_ghost.nUpd == old(verif_ghost.nUpd)+2
+//@   ensures  result1 != nil ==> !verif_ghost.flushed
+//@   ensures  result1 == nil ==> verif_cur(workingSetDS.ID()) == prevWsHash && verif_cur(commitDS.ID()) == currDSHash
+//@   also_modifies verif_ghost.nUpd, verif_ghost.flushed, verif_ghost.updFailed
+
+// doFastForward: the head moves only if the map still holds the head the ancestry check was made against; a branch
+// that has a working set moves only if that working set is clean against the head it is being moved from
+//@ func (*database).doFastForward$1
+//@   property C20
+//@   requires !verif_ghost.flushed && !verif_ghost.updFailed
+//@   at call Update: assert verif_cur(ds.ID()) == currentHeadAddr
+//@   at call Update: assert workingSetPath != "" && verif_has(workingSetPath) ==> (allowDirtyWorking || verif_ghost.wsStaged == verif_ghost.wsWorking) && verif_ghost.wsStaged == verif_rootof(verif_valat(verif_cur(ds.ID())))
+//@   at call Update#1: assert arg2:string == ds.ID() && arg3:hash.Hash == verif_hashof(cmtValue)
+//@   at call Update#2: assert arg2:string == workingSetPath
+//@   ensures  result1 == nil ==> verif_ghost.flushed && verif_cur(ds.ID()) == currentHeadAddr
+//@   ensures  result1 == nil ==> verif_ghost.nUpd == old(verif_ghost.nUpd)+1 || verif_ghost.nUpd == old(verif_ghost.nUpd)+2
+//@   ensures  result1 != nil ==> !verif_ghost.flushed
+//@   also_modifies verif_ghost.nUpd, verif_ghost.flushed, verif_ghost.updFailed, verif_ghost.wsStaged, verif_ghost.wsWorking
+
+// doDelete: the branch is deleted only if the map still holds the first head this operation saw (pinned across
+// optimistic retries) and, when a working set is named and present, only if it is clean against that head
+//@ func (*database).doDelete$1
+//@   property C20
+//@   requires !verif_ghost.flushed && !verif_ghost.updFailed
+//@   at call Delete: assert verif_cur(datasetIDstr) == firstHash
+//@   at call Delete: assert workingsetIDstr != "" && verif_has(workingsetIDstr) ==> verif_ghost.wsStaged == verif_ghost.wsWorking && verif_ghost.wsStaged == verif_rootof(verif_valat(verif_cur(datasetIDstr)))
+//@   at call Delete#1: assert arg2:string == datasetIDstr
+//@   at call Delete#2: assert arg2:string == workingsetIDstr
+//@   ensures  firstHash == old(firstHash) || old(firstHash) == (hash.Hash{})
+//@   ensures  result1 == nil ==> verif_ghost.flushed && verif_cur(datasetIDstr) == firstHash
+//@   ensures  result1 != nil ==> !verif_ghost.flushed
+//@   also_modifies verif_ghost.nUpd, verif_ghost.flushed, verif_ghost.updFailed, verif_ghost.wsStaged, verif_ghost.wsWorking
+
+// doTag: a tag is only ever created, never moved
+//@ func (*database).doTag$1
+//@   property C20
+//@   requires !verif_ghost.flushed && !verif_ghost.updFailed
+//@   at call Update: assert verif_cur(datasetID) == (hash.Hash{})
+//@   at call Update: assert arg2:string == datasetID && arg3:hash.Hash == tagAddr
+//@   ensures  result1 == nil ==> verif_ghost.flushed && verif_ghost.nUpd == old(verif_ghost.nUpd)+1
+//@   ensures  result1 != nil ==> !verif_ghost.flushed
+//@   also_modifies verif_ghost.nUpd, verif_ghost.flushed, verif_ghost.updFailed
+
+// ---- the optimistic root update loop: the edit is applied to the map loaded from the SAME root that is then handed to
+// the store as the expected previous root; the loop retries only when the store reports that that root was stale
+
+//@ extern (github.com/dolthub/dolt/go/store/datas.rootTracker).Root as verif_x_rt_Root
+//@   modifies nothing
+//@   ghost_set verif_ghost.rootRead = h
+
+//@ func (*database).loadDatasetsRefmap
+//@   property C20
+//@   trusted ghost marker only: remembers which root the datasets map was loaded from
+//@   modifies nothing
+//@   ghost_set verif_ghost.loadedRoot = rootHash
+//@   ghost_set verif_ghost.edited = false
+//@   ghost_set verif_ghost.written = false
+
+//@ extern funcvalue:editFB as verif_x_editFB
+//@   modifies nothing
+//@   ghost_set verif_ghost.edited = (err == nil)
+
+//@ extern (*github.com/dolthub/dolt/go/store/types.ValueStore).WriteValue as verif_x_WriteValue
+//@   modifies nothing
+//@   ghost_set verif_ghost.written = (err == nil && verif_ghost.edited)
+
+//@ extern (github.com/dolthub/dolt/go/store/datas.rootTracker).Commit as verif_x_rt_Commit
+//@   modifies nothing
+//@   ghost_set verif_ghost.commitOK = (err == nil && ok)
+
+//@ func (*database).tryCommitChunks
+//@   property C20 C21
+//@   at call Commit: assert arg2:hash.Hash == newRootHash && arg3:hash.Hash == currentRootHash
+//@   ensures  result == nil ==> verif_ghost.commitOK
+//@   ensures  result == ErrOptimisticLockFailed ==> !verif_ghost.commitOK
+//@   also_modifies verif_ghost.commitOK
+
+//@ func (*database).update
+//@   property C20 C21
+//@   at call editFB: assert verif_ghost.loadedRoot == verif_ghost.rootRead
+//@   at call tryCommitChunks: assert arg3:hash.Hash == verif_ghost.loadedRoot && verif_ghost.loadedRoot == verif_ghost.rootRead
+//@   at call tryCommitChunks: assert verif_ghost.edited && verif_ghost.written && arg2:hash.Hash == verif_target(r)
+//@   ensures  result == nil ==> verif_ghost.commitOK && verif_ghost.edited
+//@   also_modifies verif_ghost.rootRead, verif_ghost.loadedRoot, verif_ghost.edited, verif_ghost.written, verif_ghost.commitOK
+//@   loop 1
+//@     invariant true
+
+// ---- commits only move a branch to a descendant: an ordinary commit names the current head among its parents, an
+// amend names it as the amended commit; fast-forward requires the current head to be the common ancestor
+
+//@ func hasParentHash
+//@   property C20
+//@   nopanic
+//@   modifies nothing
+//@   ensures  result ==> exists k in 0..len(opts.Parents): opts.Parents[k] == curr
+//@   ensures  !result ==> forall k in 0..len(opts.Parents): opts.Parents[k] != curr
+//@   loop 1
+//@     invariant 0 <= verif_rangeidx() && verif_rangeidx() <= len(opts.Parents)
+//@     invariant !found && forall k in 0..verif_rangeidx(): opts.Parents[k] != curr
+
+//@ func newCommitForValue
+//@   property C20
+//@   trusted builds the commit value from the options it is given (heights: C18)
+//@   modifies nothing
+
+// BuildNewCommit: unless forced, the commit that is built names the dataset's current head as a parent (ordinary
+// commit) or as the commit it amends
+//@ func (*database).BuildNewCommit
+//@   property C20
+//@   at call newCommitForValue: assert hasHead && !opts.Force && opts.AmendedCommit.IsEmpty() ==> exists k in 0..len(opts.Parents): opts.Parents[k] == headAddr
+//@   at call newCommitForValue: assert !opts.AmendedCommit.IsEmpty() ==> hasHead && headAddr == opts.AmendedCommit && !opts.Force
+//@   at call newCommitForValue: assert arg4:types.Value == v
+
+//@ func FindCommonAncestor
+//@   property C20
+//@   trusted graph search over the commit closures (C19 is not applicable to this technique); only its result is recorded
+//@   modifies nothing
+//@   ghost_set verif_ghost.ancFound = (result2 == nil && result1)
+//@   ghost_set verif_ghost.anc = result0
+
+// doFastForward: the root update is attempted only if the dataset has no head, or the current head was found to be
+// the common ancestor of itself and the target (i.e. the target descends from it)
+//@ func (*database).doFastForward
+//@   property C20
+//@   at call update: assert ok ==> verif_ghost.ancFound && verif_ghost.anc == currentHeadAddr
+//@   also_modifies verif_ghost.ancFound, verif_ghost.anc, verif_ghost.rootRead, verif_ghost.loadedRoot, verif_ghost.edited, verif_ghost.written, verif_ghost.commitOK
